@@ -1,6 +1,7 @@
 package main
 
 import (
+	"go/ast"
 	"go/constant"
 	"go/token"
 	"go/types"
@@ -913,7 +914,7 @@ func runDiffDeleteConflict(c *Ctx, rule string) {
 				return
 			}
 			if ret, ok := b.Instrs[len(b.Instrs)-1].(*ssa.Return); ok {
-				if len(ret.Results) > 0 && isNilConst(ret.Results[len(ret.Results)-1]) {
+				if len(ret.Results) > 0 && isNilConst(returnOperand(ret, len(ret.Results)-1)) {
 					found, bad = true, ret.Pos()
 				}
 				return
@@ -1985,4 +1986,160 @@ func runSeekRangeMerge(c *Ctx, rule string) {
 	if n == 0 {
 		c.Undecided(rule, "(*lake/seekindex.Ranges).Append", "no extension of a range found")
 	}
+}
+
+// ---- C11-V1: VNG metadata is validated where it is read, before anything builds types from it.
+//
+// Metadata.Type and the vector cache build types from names and field lists taken from the file
+// with lookups that panic on failure.  That is only safe if every Metadata tree handed to them was
+// checked with the same lookups in error-returning form.  V1 decides: (a) readMetadata returns
+// success only after checkMetadata returned nil; (b) checkMetadata has a case for every
+// implementer of vng.Metadata and refuses anything else; (c) for every lookup that a Type method
+// turns into a panic, the checker's case for that kind performs the fallible form and returns its
+// error; (d) an Object's metadata comes from readMetadata only.
+func runVNGMetadataValidated(c *Ctx, rule string) bool {
+	p := c.P
+	c.Rule(rule, "VNG metadata is validated at the single place it is read: readMetadata succeeds only after checkMetadata returned nil; checkMetadata covers every vng.Metadata implementer, refuses anything else, and performs — in error-returning form — every lookup that Metadata.Type raises as a panic; vng.Object.meta is written only from readMetadata")
+	ok := true
+	fail := func(construct string, pos token.Pos, msg string) {
+		ok = false
+		c.Fail(rule, construct, pos, msg)
+	}
+	rm := p.Func("vng.readMetadata")
+	ck := p.Func("vng.checkMetadata")
+	if rm == nil || ck == nil {
+		c.Fail(rule, "vng.readMetadata / vng.checkMetadata", token.NoPos, "the metadata read from a VNG file is not validated before types are built from it (no checkMetadata)")
+		return false
+	}
+	// (a)
+	var call *ssa.Call
+	for _, ci := range allCalls(rm) {
+		if calleeName(ci.Common()) == "vng.checkMetadata" {
+			call, _ = ci.(*ssa.Call)
+		}
+	}
+	if call == nil {
+		fail("vng.readMetadata validates", rm.Pos(), "readMetadata does not call checkMetadata")
+	} else {
+		good := true
+		for _, b := range rm.Blocks {
+			ret, isRet := b.Instrs[len(b.Instrs)-1].(*ssa.Return)
+			if !isRet || len(ret.Results) != 2 || !isNilConst(returnOperand(ret, 1)) {
+				continue
+			}
+			dom := false
+			for _, r := range *call.Referrers() {
+				if cmp, isCmp := r.(*ssa.BinOp); isCmp && isNilConst(cmp.Y) {
+					if (cmp.Op == token.NEQ && falseEdgeDominates(cmp, b)) || (cmp.Op == token.EQL && trueEdgeDominates(cmp, b)) {
+						dom = true
+					}
+				}
+			}
+			if !dom {
+				good = false
+			}
+		}
+		if good {
+			c.OK(rule, "vng.readMetadata validates", call.Pos(), "success only after checkMetadata returned nil")
+		} else {
+			fail("vng.readMetadata validates", call.Pos(), "readMetadata can return metadata that checkMetadata did not accept")
+		}
+	}
+	// (b) coverage
+	mi := ifaceType(p, "vng", "Metadata")
+	decl := p.Decl(ck)
+	info := p.pkgOfFunc(ck).TypesInfo
+	tss := typeSwitches(info, decl.Body)
+	if mi == nil || len(tss) == 0 {
+		fail("vng.checkMetadata coverage", ck.Pos(), "no type switch over vng.Metadata found")
+	} else {
+		ts := tss[0]
+		var missing []string
+		for _, impl := range implementersOf(p, mi, "vng") {
+			if !ts.cases[impl] {
+				missing = append(missing, impl)
+			}
+		}
+		defErr := false
+		if ts.hasDefault {
+			for _, st := range ts.defBody {
+				if r, isR := st.(*ast.ReturnStmt); isR && len(r.Results) == 1 {
+					if id, isId := r.Results[0].(*ast.Ident); !isId || id.Name != "nil" {
+						defErr = true
+					}
+				}
+			}
+		}
+		switch {
+		case len(missing) > 0:
+			fail("vng.checkMetadata coverage", ck.Pos(), "no case for "+strings.Join(missing, ", ")+": metadata of that kind is accepted (or refused) without its components being checked")
+		case !defErr:
+			fail("vng.checkMetadata coverage", ck.Pos(), "the default arm does not refuse unknown or missing metadata")
+		default:
+			c.OK(rule, "vng.checkMetadata coverage", ck.Pos(), sprint(len(ts.cases))+" kinds, default refuses")
+		}
+	}
+	// (c) every lookup that a Type method turns into a panic is performed fallibly by the checker
+	pairs := map[string]string{"(*super.Context).LookupTypeNamed": "(*super.Context).LookupTypeNamed", "(*super.Context).MustLookupTypeRecord": "(*super.Context).LookupTypeRecord"}
+	need := map[string]bool{}
+	for _, fn := range p.FuncsIn("vng") {
+		if fn.Name() != "Type" || fn.Signature.Recv() == nil {
+			continue
+		}
+		for _, ci := range allCalls(fn) {
+			if want, isP := pairs[calleeName(ci.Common())]; isP {
+				need[want] = true
+			}
+		}
+	}
+	for want := range need {
+		found := false
+		for _, ci := range allCalls(ck) {
+			if calleeName(ci.Common()) != want {
+				continue
+			}
+			// its error is returned
+			if v, isV := ci.(ssa.Value); isV {
+				for _, r := range *v.Referrers() {
+					if ex, isEx := r.(*ssa.Extract); isEx && ex.Index == 1 {
+						for _, rr := range *ex.Referrers() {
+							if _, isRet := rr.(*ssa.Return); isRet {
+								found = true
+							}
+						}
+					}
+				}
+			}
+		}
+		if found {
+			c.OK(rule, "vng.checkMetadata performs "+want, ck.Pos(), "and returns its error")
+		} else {
+			fail("vng.checkMetadata performs "+want, ck.Pos(), "Metadata.Type raises a failure of this lookup as a panic, but the validation does not perform it: a file can pass validation and still crash the reader")
+		}
+	}
+	// (d) single source
+	for _, fn := range p.FuncsIn("vng") {
+		for _, b := range fn.Blocks {
+			for _, in := range b.Instrs {
+				st, isSt := in.(*ssa.Store)
+				if !isSt {
+					continue
+				}
+				fa, isFa := st.Addr.(*ssa.FieldAddr)
+				if !isFa || namedOf(fa.X.Type()) != "vng.Object" || fieldName(fa.X.Type(), fa.Field) != "meta" {
+					continue
+				}
+				fromRM := dependsOn(st.Val, func(v ssa.Value) bool {
+					cl, isC := v.(*ssa.Call)
+					return isC && calleeName(&cl.Call) == "vng.readMetadata"
+				})
+				if fromRM {
+					c.OK(rule, fnName(fn)+" sets Object.meta", st.Pos(), "from readMetadata")
+				} else {
+					fail(fnName(fn)+" sets Object.meta", st.Pos(), "an Object gets metadata that did not come from readMetadata (unvalidated)")
+				}
+			}
+		}
+	}
+	return ok
 }
